@@ -20,7 +20,10 @@
     the other by ONE application through one terminal session; a separator command closes
     the first history and opens the second, so each block is validated on its own: the
     second block must behave as if the first had never run (handler tasks of different
-    blocks must not collide) and the first must leave no error behind."""
+    blocks must not collide) and the first must leave no error behind.
+    Try blocks whose body starts a task that takes a named resource (pip:run --wlock / --rlock) and whose
+    handlers start tasks taking the same resource: the handlers run as specified whether the body's task fails
+    or not (a task gives its resources back when it ends), under a watchdog."""
 import json
 import vlib
 
@@ -42,6 +45,11 @@ def run(ctx):
     ctx.cov['states'] -= rc['distinct']; ctx.cov['transitions'] -= rc['generated']
     if 'NoCrash' not in rc['violated']:
         raise vlib.Infra('spec self-test failed: the closedguard variant does not violate NoCrash')
+    # body and handlers that start tasks taking the SAME named resource (a failing task gives its resources back)
+    wl = ctx.vh(['trylocks'], timeout=600)
+    ctx.cov['replay'].append(dict(what='try blocks whose body task and handler tasks lock the same resource (read / write, failing / succeeding body)', executed=wl['executed'], failures=wl['failures_by_key']))
+    ctx.cov['evaluations'] += wl['executed']
+    vlib.report_case_failures(ctx, wl, 'try with resource locks')
     tf = ctx.tmp('c16.ndjson')
     rounds = 1 if q else 10
     total = 0
